@@ -27,7 +27,7 @@ CHECKS['C18'] = dict(
     exhaustive={'thorough': True},
     stages=[
         dict(name='rcp', harness=H('c18', ['harness/c18_reciprocal.cpp']),
-             plan={'quick': 'rcp=2000000,rcp_run=4000,noop_decode=200000', 'thorough': 'rcp=20000000,rcp_run=40000,noop_decode=2000000,rcp_exhaustive=1'}),
+             plan={'quick': 'rcp=2000000,rcp_run=4000,noop_decode=200000', 'thorough': 'rcp=20000000,rcp_run=40000,noop_decode=2000000,rcp_exhaustive=all'}),
     ],
 )
 
@@ -124,6 +124,36 @@ CHECKS['C05'] = dict(
              plan={'quick': 'step=60000', 'thorough': 'step=6000000'}),
         dict(name='prog', harness=H('c05p', ['harness/c05_prog.cpp'], model=True, ldflags=PROG_LD),
              plan={'quick': 'prog_vs_model=480', 'thorough': 'prog_vs_model=40000'}),
+    ],
+)
+
+C02_AUX = os.path.join(os.path.dirname(os.path.abspath(__file__)), 'build', 'run', 'c02-digests')
+
+
+def _c02_clean():
+    import glob
+    os.makedirs(os.path.dirname(C02_AUX), exist_ok=True)
+    for f in glob.glob(C02_AUX + '.w*'):
+        os.remove(f)
+
+
+CHECKS['C02'] = dict(
+    level='exploration',
+    rule='generated (key, input, version): key lengths {0,1,12,31,32,59,60,61,63,64,65,127..129,200,500} and uniform <= 96 (keys > 60 bytes feed Argon2 whole, BlakeGenerator truncated), '
+         'input lengths {0,1,55,63..65,76,127..129,255..257,1000,4095..4097} and uniform <= 300, contents uniform/constant/counter; oracle: randomx_calculate_hash through a light JIT VM '
+         '(and a light interpreter VM for one input per key) == the independent executable specification (model/ref_randomx); then the same cases are hashed by differently compiled '
+         'builds (g++ -O1 with asserts, clang ASan) in separate processes and must reproduce the specification digests (fixed pure function across runs, processes, builds). On mismatch '
+         'the check says whether cache, SuperscalarHash programs, dataset items or the VM/driver deviates. Non-trivial: every distinct (key,input,version) - none of the 10 suite vectors is generated',
+    assumptions=COMMON_ASSUME + ['model/ref_*.cpp is a correct reading of specs.md ch.2-7 (self-test: RFC 7693/9106 vectors, FIPS-197, hashlib, AES-NI, all 10 published digests)',
+                                 'rare encodings (probability ~2^-32 per instruction) are not reached through the hash function; C04/C05/C18 choose programs directly'],
+    pre=_c02_clean,
+    stages=[
+        dict(name='spec', harness=H('c02', ['harness/c02_spec.cpp'], model=True, cflags=['-DWITH_MODEL']), args=['--aux', C02_AUX],
+             plan={'quick': 'spec=16', 'thorough': 'spec=384'}),
+        dict(name='chk', harness=H('c02x', ['harness/c02_spec.cpp'], variant='chk'), args=['--aux', C02_AUX],
+             plan={'quick': 'xbuild=all', 'thorough': 'xbuild=all'}),
+        dict(name='asan', harness=H('c02x', ['harness/c02_spec.cpp'], variant='asan'), args=['--aux', C02_AUX],
+             plan={'quick': 'xbuild=all', 'thorough': 'xbuild=all'}),
     ],
 )
 
